@@ -971,6 +971,7 @@ def run_fillet(case, seed, R):
 # scopes
 
 HEX_DIAM = {1: [11.0, 15.7], 2: [7.0, 10.3], 3: [5.0, 7.6]}     # flat-to-flat, in samples
+HEX_DIAM_T = {1: [11.0, 15.7, 21.4], 2: [7.0, 10.3, 13.0], 3: [5.0, 7.6, 9.1]}
 GAPS = [0.0, 1.0, 3.3]                                            # in samples
 
 
@@ -982,13 +983,14 @@ def excl_sets(rings):
 def plan(tier, seed):
     quick = tier == 'quick'
     rs = lambda: reset_executors(64)   # noqa  (regular_polygon reads config.precision)
-    grids_full = [[48, 48], [49, 49], [64, 64], [65, 65], [48, 65], [65, 48]]
+    grids_full = [[48, 48], [49, 49], [64, 64], [65, 65], [48, 65], [65, 48], [96, 96], [97, 97]]
     grids_q = [[48, 48], [49, 49], [64, 64], [65, 65], [48, 65]]
     grids = grids_q if quick else grids_full
     dxs = [1.0, 0.1]
+    diams = HEX_DIAM if quick else HEX_DIAM_T
 
     hex_cases = [{'n0': n[0], 'n1': n[1], 'dx': dx, 'rings': r, 'diam': d, 'gap': g, 'angle': a, 'exclude': e}
-                 for r in (1, 2, 3) for n in grids for dx in dxs for d in HEX_DIAM[r] for g in GAPS for a in (90, 0)
+                 for r in (1, 2, 3) for n in grids for dx in dxs for d in diams[r] for g in GAPS for a in (90, 0)
                  for e in excl_sets(r)]
     opd_grids = [[48, 48], [49, 49], [40, 57]] if quick else [[48, 48], [49, 49], [64, 64], [65, 65], [40, 57], [57, 40]]
     opd_cases = [{'n0': n[0], 'n1': n[1], 'dx': dx, 'rings': r, 'diam': HEX_DIAM[r][1], 'gap': g, 'angle': a, 'exclude': e,
@@ -998,8 +1000,8 @@ def plan(tier, seed):
 
     rots = [None, 0, 10, [0, 17.5], 100, -10]
     key_cases = [{'n0': n[0], 'n1': n[1], 'dx': dx, 'layout': lay, 'fill': fill, 'gap': g, 'agap': agp, 'rot': rot}
-                 for lay in (('A', 'B') if quick else ('A', 'B', 'C', 'D')) for n in grids for dx in dxs for fill in (1.0, 1.45)
-                 for g in GAPS for agp in ((None,) if quick else (None, 0.0, 2.0)) for rot in rots
+                 for lay in ('A', 'B', 'C', 'D') for n in grids for dx in dxs for fill in (1.0, 1.45)
+                 for g in GAPS for agp in ((None, 2.0) if quick else (None, 0.0, 2.0)) for rot in rots
                  if not (isinstance(rot, list) and lay == 'C')]
     kopd_cases = [{'n0': n[0], 'n1': n[1], 'dx': 1.0, 'layout': lay, 'fill': fill, 'gap': g, 'agap': None, 'rot': rot, 'basis': b}
                   for lay in ('A', 'B') for n in ([[48, 48], [49, 49]] if quick else [[48, 48], [49, 49], [48, 65], [65, 64]])
@@ -1025,7 +1027,7 @@ def plan(tier, seed):
     G = ', '.join(f'{a}x{b}' for a, b in grids)
     units = [
         ScopeUnit('hex_tiling', hex_cases, run_hex,
-                  f'every grid in {{{G}}} x dx in {{1, 0.1}} x rings {{1,2,3}} x 2 flat-to-flat diameters per ring count {HEX_DIAM} samples (the larger ones '
+                  f'every grid in {{{G}}} x dx in {{1, 0.1}} x rings {{1,2,3}} x flat-to-flat diameters per ring count {diams} samples (the larger ones '
                   f'overflow the small grids, so windows get clamped / emptied) x gap {GAPS} samples x segment_angle {{90, 0}} x exclusion {{none, {{0}}, {{0,3}}, {{last}}}}: '
                   'ids and count 1+3r(r+1)-|excl|, centres at the documented positions, every segment raster == analytic hexagon outside the 1e-9 band, '
                   'pairwise disjoint, amp == union, area within the boundary-pixel bound, local_coords; non-trivial when the aperture is neither empty nor full',
